@@ -916,7 +916,7 @@ def search(tier, hints):
         else:
             tr.append((w, rng.choice([0.3, 0.5, 0.9, 0.99, 0.999]), rng.choice([1, 2, 3, 10, 100, 1000])))
     tr += [([1.0, 2.0, 3.0], 512.0, 10), ([0.75, 0.4375, 0.1875], 1.0, 1000), ([3.0, 1.0, 2.0], 0.9, 1)]
-    tr = c20_audit.unnormalised_trim_cases(rng, 120 if big else 40) + tr
+    tr = c20_audit.grid_trim_cases(rng, 280 if big else 84) + c20_audit.unnormalised_trim_cases(rng, 120 if big else 40) + tr
     for w, ess, bins in tr:
         try:
             m = c20_audit.trim_property(w, ess, bins)[0]
